@@ -15,7 +15,7 @@ RESN = ['ALA', 'GLY', 'LYS', 'TRP', 'SER', 'VAL']
 
 def make_world(rng, root, nspecies=None, ninst=(1, 12), order='random', box_kind='rect', with_solvent=True,
                with_vel=False, title=None, end_for=None, multi_res_prob=0.35, small_prob=0.3,
-               unique_grid=False, sizes_hint=None, resid_mode='consecutive', end_extra=None, counts=None, coarsen=False, homopolymer_prob=0.0, multi_res_max=4):
+               unique_grid=False, sizes_hint=None, resid_mode='consecutive', end_extra=None, counts=None, coarsen=False, homopolymer_prob=0.0, multi_res_max=4, force_small=()):
     """Returns a dict describing the world (see keys below)."""
     os.makedirs(root, exist_ok=True)
     counts_in = counts
@@ -28,7 +28,7 @@ def make_world(rng, root, nspecies=None, ninst=(1, 12), order='random', box_kind
             r = rng.random()
             if sizes_hint is not None:
                 sizes = list(sizes_hint[k])
-            elif r < small_prob:
+            elif r < small_prob or name in force_small:
                 sizes = [int(rng.integers(1, 3))]                       # 1- or 2-bead species
             elif r < small_prob + multi_res_prob:
                 sizes = [int(rng.integers(1, 5)) for _ in range(int(rng.integers(2, multi_res_max + 1)))]
